@@ -10,6 +10,7 @@ mod suite;
 mod val;
 mod zoo_gen;
 mod mutate;
+mod schemagen;
 
 use std::collections::BTreeMap;
 use std::io::Write;
@@ -167,6 +168,131 @@ fn main() {
                                 writeln!(out, "!C06 invalid-value type={} ver={} bytes={} got={}", e.name, v, hex(&m), reply).unwrap();
                             }
                         }
+                    }
+                }
+            }
+            for (k, v) in stats {
+                writeln!(out, "#stat {} {}", k, v).unwrap();
+            }
+        }
+        // S-schemawire + S-diff: schema values through formats 1 and 2, malformed schema sections,
+        // diff_schema / layout_compatible on zoo pairs, random schemas and single-step mutations
+        "schemas" => {
+            use schemagen::*;
+            use savefile::{diff_schema, Schema};
+            let mut stats: BTreeMap<String, u64> = BTreeMap::new();
+            let diff_reply = |a: &Schema, b: &Schema, rp: bool| -> String {
+                let r = std::panic::catch_unwind(std::panic::AssertUnwindSafe(|| diff_schema(a, b, "".to_string(), rp)));
+                match r {
+                    Ok(None) => "(ok same)".to_string(),
+                    Ok(Some(_)) => "(ok differ)".to_string(),
+                    Err(_) => {
+                        let m = last_panic();
+                        if m.contains("Futures are only supported in return position") { "(panic future)".to_string() } else { format!("(panic {})", panic_class(&m)) }
+                    }
+                }
+            };
+            let lay_reply = |a: &Schema, b: &Schema| -> String {
+                let r = std::panic::catch_unwind(std::panic::AssertUnwindSafe(|| a.layout_compatible(b)));
+                match r {
+                    Ok(x) => format!("(ok {})", x),
+                    Err(_) => format!("(panic {})", panic_class(&last_panic())),
+                }
+            };
+            let mut wire_case = |out: &mut dyn Write, s: &Schema, stats: &mut BTreeMap<String, u64>, origin: &str| {
+                for ver in [1u32, 2u32] {
+                    let bytes = ser_schema(s, ver);
+                    let reply = match de_schema(&bytes, ver as u16) {
+                        Ok((back, rest)) => {
+                            if ver == 2 && (&back != s || rest != 0) {
+                                writeln!(out, "!C13 schema-roundtrip origin={} ver={} bytes={} rest={}", origin, ver, hex(&bytes), rest).unwrap();
+                            }
+                            format!("(ok {} {})", hex(&ser_schema(&back, 2)), rest)
+                        }
+                        Err(e) => {
+                            writeln!(out, "!C13 schema-unreadable origin={} ver={} bytes={} got={}", origin, ver, hex(&bytes), e).unwrap();
+                            e
+                        }
+                    };
+                    writeln!(out, "(decschema {} {})\t{}", ver, hex(&bytes), reply).unwrap();
+                    *stats.entry(format!("wire-v{}", ver)).or_default() += 1;
+                }
+            };
+            // 1. schemas of the zoo types
+            let mut zoo_schemas: Vec<(String, Vec<u8>)> = Vec::new();
+            for e in selected(&reg, &a) {
+                for &v in &e.versions {
+                    let b2 = (e.schema_bytes)(v, 2);
+                    let (s, _) = de_schema(&b2, 2).expect("zoo schema must deserialize");
+                    wire_case(&mut out, &s, &mut stats, &format!("{}@{}", e.name, v));
+                    let refl = diff_reply(&s, &s, false);
+                    writeln!(out, "(diff {} {} false)\t{}", hex(&b2), hex(&b2), refl).unwrap();
+                    if refl != "(ok same)" {
+                        writeln!(out, "!C13 diff-not-reflexive origin={}@{} got={}", e.name, v, refl).unwrap();
+                    }
+                    if v == e.current() {
+                        zoo_schemas.push((e.name.clone(), b2));
+                    }
+                }
+            }
+            // 2. pairs of zoo schemas (sampled)
+            let mut r = Rng::new(name_seed(a.seed, "schema-pairs", 0));
+            let npairs = (a.cases * 60).min(zoo_schemas.len() * zoo_schemas.len());
+            for _ in 0..npairs {
+                let i = r.below(zoo_schemas.len() as u64) as usize;
+                let j = if r.chance(1, 3) { (i + 1 + r.below(3) as usize) % zoo_schemas.len() } else { r.below(zoo_schemas.len() as u64) as usize };
+                let (sa, _) = de_schema(&zoo_schemas[i].1, 2).unwrap();
+                let (sb, _) = de_schema(&zoo_schemas[j].1, 2).unwrap();
+                writeln!(out, "(diff {} {} false)\t{}", hex(&zoo_schemas[i].1), hex(&zoo_schemas[j].1), diff_reply(&sa, &sb, false)).unwrap();
+                writeln!(out, "(laycompat {} {})\t{}", hex(&zoo_schemas[i].1), hex(&zoo_schemas[j].1), lay_reply(&sa, &sb)).unwrap();
+                *stats.entry("zoo-pairs".into()).or_default() += 1;
+            }
+            // 3. random schemas, reflexivity, single-step mutations, layout compatibility
+            let mut r = Rng::new(name_seed(a.seed, "schema-random", 1));
+            for i in 0..a.cases * 40 {
+                let data_only = i % 3 != 0;
+                let s = gen_schema(&mut r, 1 + (i % 4) as u32, data_only);
+                wire_case(&mut out, &s, &mut stats, "random");
+                let b = ser_schema(&s, 2);
+                for rp in [false, true] {
+                    let refl = diff_reply(&s, &s, rp);
+                    writeln!(out, "(diff {} {} {})\t{}", hex(&b), hex(&b), rp, refl).unwrap();
+                }
+                writeln!(out, "(laycompat {} {})\t{}", hex(&b), hex(&b), lay_reply(&s, &s)).unwrap();
+                if data_only {
+                    for _ in 0..3 {
+                        if let Some((kind, m)) = mutate(&mut r, &s) {
+                            let bm = ser_schema(&m, 2);
+                            let d = diff_reply(&s, &m, false);
+                            writeln!(out, "(diff {} {} false)\t{}", hex(&b), hex(&bm), d).unwrap();
+                            let d2 = diff_reply(&m, &s, false);
+                            writeln!(out, "(diff {} {} false)\t{}", hex(&bm), hex(&b), d2).unwrap();
+                            writeln!(out, "(laycompat {} {})\t{}", hex(&b), hex(&bm), lay_reply(&s, &m)).unwrap();
+                            *stats.entry(format!("mut-{}", kind)).or_default() += 1;
+                            // a change inside something that already differs from itself (Undefined) cannot be judged
+                            let self_ok = diff_reply(&s, &s, false) == "(ok same)";
+                            if self_ok && (d != "(ok differ)" || d2 != "(ok differ)") {
+                                writeln!(out, "!C13 mutation-not-detected kind={} a={} b={} got={}/{}", kind, hex(&b), hex(&bm), d, d2).unwrap();
+                            }
+                        }
+                    }
+                }
+            }
+            // 4. malformed schema sections
+            let mut r = Rng::new(name_seed(a.seed, "schema-malformed", 2));
+            for i in 0..a.cases * 30 {
+                let s = gen_schema(&mut r, 1 + (i % 3) as u32, i % 2 == 0);
+                let ver = if i % 4 == 0 { 1 } else { 2 };
+                let base = ser_schema(&s, ver);
+                for m in mutate::mutations(&mut r, &base, 3) {
+                    let reply = isolated(|| match de_schema(&m, ver as u16) {
+                        Ok((back, rest)) => format!("(ok {} {})", hex(&ser_schema(&back, 2)), rest),
+                        Err(e) => e,
+                    });
+                    writeln!(out, "(decschema {} {})\t{}", ver, hex(&m), reply).unwrap();
+                    *stats.entry(format!("malformed-{}", reply.split(|c| c == ' ' || c == ')').next().unwrap_or(""))).or_default() += 1;
+                    if reply.starts_with("(panic") && !reply.starts_with("(panic oom") {
+                        writeln!(out, "!C06 schema-section-panic ver={} bytes={} got={}", ver, hex(&m), reply).unwrap();
                     }
                 }
             }
